@@ -10,7 +10,7 @@
 #include <unistd.h>
 #include "libwifi.h"
 #include "hx.h"
-unsigned char *g_in_ptr, *g_in_copy, *g_in_base; size_t g_in_len, g_misalign = 0;
+unsigned char *g_in_ptr, *g_in_copy, *g_in_base; size_t g_in_len, g_misalign = 0; static int g_errno = 0;
 size_t g_trail = 0; int g_prefill = 0xA5; static int g_precall = 0;
 
 /* ---------------------------------------------------------------- helpers */
@@ -125,6 +125,7 @@ int main(void) {
     if (getenv("LWV_PREFILL")) g_prefill = atoi(getenv("LWV_PREFILL"));
     if (getenv("LWV_MISALIGN")) g_misalign = (size_t) atol(getenv("LWV_MISALIGN")) % 16;
     if (getenv("LWV_PRECALL")) g_precall = atoi(getenv("LWV_PRECALL"));
+    if (getenv("LWV_ERRNO")) g_errno = atoi(getenv("LWV_ERRNO"));
     if (getenv("LWV_FILL")) { lwv_set_fill(atoi(getenv("LWV_FILL"))); lwv_arm(-1, 0); }
     while ((len = getline(&line, &cap, stdin)) > 0) {
         while (len > 0 && (line[len - 1] == '\n' || line[len - 1] == '\r')) line[--len] = 0;
@@ -133,6 +134,7 @@ int main(void) {
         for (char *p = strtok(line, " "); p && n < (1 << 16); p = strtok(NULL, " ")) tok[n++] = p;
         if (n == 0) { printf("empty\n"); continue; }
         if (g_precall) precall();
+        if (g_errno) errno = g_errno;      /* LWV_ERRNO: what an unrelated earlier failure left behind */
         if (!strcmp(tok[0], "threads")) op_threads(tok, n);
         else if (!strcmp(tok[0], "alloc")) op_alloc(tok, n);
         else if (!dispatch_all(tok, n)) printf("bad-op\n");
